@@ -246,6 +246,37 @@ def std_transfer(I, fr, t, c, pth):
                 fr.storev(dest, out)
                 return True
             return False
+        if name == 'find_map' and len(args) == 2:
+            # the first item whose closure result is Some; a closure with a data-dependent test has two paths per item,
+            # so the call has one outcome per item plus "none matched", each under the tests that select it
+            itv = fr.deref_operand(args[0])
+            cl = I._closure_value(fr, args[1])
+            if is_iter(itv) and cl is not None:
+                alts = []
+                prefix_l, prefix_e = [], []
+                exhausted = True
+                for item in drain(I, itv, where):
+                    paths = I._call_closure_paths(fr, cl[0], cl[1], [item], where)
+                    somes = [(p_, r_) for p_, r_ in paths if isinstance(r_, Opt) and r_.tag == 'some']
+                    nones = [(p_, r_) for p_, r_ in paths if isinstance(r_, Opt) and r_.tag == 'none']
+                    if len(somes) + len(nones) != len(paths) or len(nones) > 1:
+                        return False
+                    for p_, r_ in somes:
+                        alts.append((Opt('some', r_.payload), prefix_l + list(p_.labels), prefix_e + list(p_.events)))
+                    if not nones:
+                        exhausted = False
+                        break
+                    prefix_l = prefix_l + list(nones[0][0].labels)
+                    prefix_e = prefix_e + list(nones[0][0].events)
+                if exhausted:
+                    alts.append((Opt('none', TOP), prefix_l, prefix_e))
+                if len(alts) == 1:
+                    pth.labels = list(pth.labels) + list(alts[0][1])
+                    pth.events.extend(alts[0][2])
+                    fr.storev(dest, alts[0][0])
+                    return True
+                return I.fork_alternatives(fr, t, pth, alts)
+            return False
         if name == 'count' and len(args) == 1:
             itv = fr.operand(args[0])
             if is_iter(itv):
